@@ -328,8 +328,9 @@ def apiSetRow (m : SeqMod) (s : St) (row : Int) : Option St :=
 /-- `xmp_stop_module` -/
 def stopModule (s : St) : St := { s with pos := -2 }
 
-/-- `xmp_restart_module` -/
-def restartModule (s : St) : St := { s with loopCount := 0, pos := -1 }
+/-- `xmp_restart_module`: restart requested, loop counter zeroed, and (since /repo ade59f8) the flow
+state of the abandoned row dropped with `libxmp_reset_flow` -/
+def restartModule (s : St) : St := resetFlow { s with loopCount := 0, pos := -1 }
 
 /-- the `for (i = len-1; i >= 0; i--)` search of `xmp_seek_time`: `k` = i+1 -/
 def seekLoop (m : SeqMod) (s : St) (time : Int) : Nat → Option Int
